@@ -895,10 +895,40 @@ fn error_families(out: &mut Vec<Case>) {
     }
 }
 
+/// minimised witnesses of the defects this check found in the pinned tree (fixed in /repo)
+fn regressions(out: &mut Vec<Case>) {
+    // an included template extends a template of the includer's own chain: not a cycle
+    let t0 = simple(
+        vec![ext('s', 1), CallBlock(0)],
+        vec![(0, vec![tx("T0:b0".into()), Incl { names: vec![2], ign: false }])],
+    );
+    let t1 = simple(vec![tx("T1:top".into()), CallBlock(0), tx("T1:end".into())], vec![(0, vec![tx("T1:b0".into())])]);
+    let t2 = simple(vec![ext('s', 1), CallBlock(0)], vec![(0, vec![tx("T2:b0".into()), Super])]);
+    out.push(Case { fam: "regress".into(), tmpls: vec![t0, t1, t2] });
+    // super() at the top level of a template included from inside a block (was a panic)
+    let t0 = simple(
+        vec![ext('s', 1), CallBlock(0)],
+        vec![(0, vec![tx("T0:b0".into()), Incl { names: vec![2], ign: false }])],
+    );
+    let t1 = simple(vec![tx("T1:top".into()), CallBlock(0)], vec![(0, vec![tx("T1:b0".into())])]);
+    let t2 = simple(vec![tx("T2".into()), Super], vec![]);
+    out.push(Case { fam: "regress".into(), tmpls: vec![t0, t1, t2] });
+    // from-import of a name the module does not define must not pick up the importer's variable
+    for name in [0usize, 1] {
+        let t0 = simple(
+            vec![SetVar(1, "mine".into()), FromImport(1, name, 7), Text("[".into()), EmitVar(7), Text("]".into())],
+            vec![],
+        );
+        let t1 = simple(vec![SetVar(2, "M2".into())], vec![]);
+        out.push(Case { fam: "regress".into(), tmpls: vec![t0, t1] });
+    }
+}
+
 fn cases(tier: &str) -> Vec<Case> {
     let thorough = tier == "thorough";
     let mut rng = Rng::new(seed_from_env());
     let mut out = vec![];
+    regressions(&mut out);
     error_families(&mut out);
     all_small(&mut out, thorough);
     let n_plain = if thorough { 50_000 } else { 2_500 };
